@@ -21,7 +21,9 @@ func writeReplay(o *options, g *Gen, v *Verdict, outDir string) replayResult {
 	fmt.Fprintf(&b, "obligation: %s\nfunction: %s.%s\nposition: %s\ngoal: %s\nresult: %s\nsmt: %s\n\nsolver output:\n%s\n",
 		v.Obl.Name, v.Obl.Pkg, v.Obl.Fn, v.Obl.Pos, v.Obl.Goal, v.Result, v.File, v.Output)
 	confirmed := false
-	if v.Result == "sat" && v.Model != "" {
+	if o.noReplay {
+		fmt.Fprintf(&b, "\nreplay skipped (-noreplay)\n")
+	} else if v.Result == "sat" && v.Model != "" {
 		model := parseModel(v.Model)
 		fmt.Fprintf(&b, "\nmodel (inputs):\n")
 		for _, k := range sortedKeys(model) {
